@@ -415,7 +415,7 @@ def describe(fl, e, depth=0):
             return "declared:" + root_field(fl, e["args"][1])
         if c == TC + "unify":
             return "unified(%s,%s)" % (describe(fl, e["args"][2], depth + 1), describe(fl, e["args"][3], depth + 1))
-        if c == TC + "copy":
+        if c in (TC + "copy", TC + "instantiate"):
             return "copy(" + describe(fl, e["args"][0], depth + 1) + ")"
         if c == TC + "type_from_function":
             return "fnsig"
